@@ -142,6 +142,13 @@ func genFuncAll(cs *ContractSet, l *Loaded, c *Contract, wrap bool) []*FuncResul
 	for _, v := range strings.Fields(parts[1]) {
 		out = append(out, genFunc(cs, l, c, wrap, callee, v))
 	}
+	if fn := findFunc(l, c); fn != nil {
+		for _, p := range fn.Params {
+			if p.Name() == callee { // split on a parameter: the cases must exhaust the precondition
+				out = append(out, genFunc(cs, l, c, wrap, callee, "?cover:"+strings.TrimSpace(parts[1])))
+			}
+		}
+	}
 	return out
 }
 
